@@ -353,6 +353,7 @@ CMR_ERROR signCamion(
 
   if (pisCamionSigned)
     *pisCamionSigned = true;
+  CMR_ERROR error = CMR_OKAY;
   for (size_t comp = 0; comp < numBlocks; ++comp)
   {
     CMR_SUBMAT* compSubmatrix = NULL;
@@ -362,9 +363,16 @@ CMR_ERROR signCamion(
 
     double remainingTime = timeLimit - ((clock() - totalClock) * 1.0 / CLOCKS_PER_SEC);
     char modified;
-    CMR_CALL( CMRcamionComputeSignSequentiallyConnected(cmr, (CMR_CHRMAT*) blocks[comp].matrix,
+    error = CMRcamionComputeSignSequentiallyConnected(cmr, (CMR_CHRMAT*) blocks[comp].matrix,
       (CMR_CHRMAT*) blocks[comp].transpose, change, &modified,
-      (psubmatrix && !*psubmatrix) ? &compSubmatrix : NULL, remainingTime) );
+      (psubmatrix && !*psubmatrix) ? &compSubmatrix : NULL, remainingTime);
+    if (error)
+    {
+      /* E.g., a timeout: the blocks are freed below before the error is passed on. */
+      if (compSubmatrix)
+        CMR_CALL( CMRsubmatFree(cmr, &compSubmatrix) );
+      break;
+    }
 
     CMRdbgMsg(2, "-> Block %d yields: %c\n", comp, modified ? modified : '0');
 
@@ -463,6 +471,13 @@ CMR_ERROR signCamion(
     CMRfreeBlockArray(cmr, &blocks[c].columnsToOriginal);
   }
   CMRfreeBlockArray(cmr, &blocks);
+
+  if (error)
+  {
+    if (psubmatrix && *psubmatrix)
+      CMR_CALL( CMRsubmatFree(cmr, psubmatrix) );
+    return error;
+  }
 
   if (stats)
   {
